@@ -64,6 +64,7 @@ void faults_enable(bool on);   // the harness switches faults off for the livene
 // access-level instrumentation front ends call this
 void access_yield(const void *addr, int size, int is_write, int order);
 void access_region_add(const void *base, size_t len);
+void access_region_unmap(const void *base, size_t len);   // the range is gone: its regions no longer match
 void access_regions_clear();
 int access_region_of(const void *addr);    // index of the registered region holding addr, or -1
 extern uint64_t g_access_value;            // value being stored, set by the atomic front end before access_yield
